@@ -211,8 +211,20 @@ def run(rep):
     tlc.require_ok(res, "RoundRobinMC")
     rep.add("states", res.distinct)
     rep.add("transitions", res.generated)
-    rep.coverage["mc"] = [{"module": "RoundRobinMC", "counts": "1..6", "kinds": KINDS, "distinct_states": res.distinct,
-                           "states_generated": res.generated, "depth": res.depth, "wall_s": round(res.wall_s, 2)}]
+    rep.coverage["mc"] = [{"module": "RoundRobinMC", "view": "up to rotation of the inputs", "counts": "1..6", "kinds": KINDS,
+                           "distinct_states": res.distinct, "states_generated": res.generated, "depth": res.depth,
+                           "wall_s": round(res.wall_s, 2)}]
+    if thorough:      # the same model without the rotation reduction
+        res2 = tlc.run("RoundRobinMC", MC_FULL.replace("ViewFull", "ViewPlain"), workers=min(PROCS, 8), timeout=1500)
+        if res2.invariant_violated:
+            rep.violation({"component": "RoundRobin model", "what": f"model (plain view) violates {res2.invariant_violated}",
+                           "clauses": ["MC:" + res2.invariant_violated], "tlc_tail": res2.out.splitlines()[-60:]})
+            return
+        tlc.require_ok(res2, "RoundRobinMC(plain)")
+        rep.add("states", res2.distinct)
+        rep.add("transitions", res2.generated)
+        rep.coverage["mc"].append({"module": "RoundRobinMC", "view": "plain", "counts": "1..6", "distinct_states": res2.distinct,
+                                   "states_generated": res2.generated, "wall_s": round(res2.wall_s, 2)})
     # non-vacuity of the bound: the worst case (count-1 denials in a row) is reachable
     worst = tlc.run("RoundRobinMC", MC_WORST, env={"RR_MAXN": "4"}, workers=1)
     if worst.invariant_violated != "NeverWorstCase":
